@@ -119,3 +119,48 @@ Example C10_follower_does_not_expire_nonvacuous :
   exists l, aget (store s) 1 = Some l /\ l_expried l = false /\ leader s = false /\ l_isaof l = true
             /\ (now s - l_eT l < EXPRIED_WAIT_LEADER_MAX_TIME)%Z /\ (l_eT l < now s)%Z.
 Proof. vm_compute. eexists. repeat split; reflexivity. Qed.
+
+(* every sequence of client requests (not claiming to come from the replicated log) and clock advances at a
+   non-leader: each request gets exactly one reply, with code STATE_ERROR (10), UNLOCK_ERROR (6: unlock of an
+   unknown key) or TIMEOUT (8: concurrent-check pre-check) -- nothing is granted, queued, released or logged; lock
+   records, timer structures and the role never change; a key manager is never created or modified, only an
+   unreferenced one may be dropped *)
+Theorem C10_follower_refuses_every_request : forall acts s,
+  leader s = false ->
+  Forall (fun a => match a with
+                   | AReq _ c => (if c_lock c then has (c_flag c) LOCK_FLAG_FROM_AOF
+                                  else has (c_flag c) UNLOCK_FLAG_FROM_AOF) = false
+                   | AAdvance _ => True
+                   | _ => False end) acts ->
+  (let s' := fst (run s acts) in
+   leader s' = leader s /\ store s' = store s /\ next s' = next s
+   /\ twheel s' = twheel s /\ tlong s' = tlong s /\ ewheel s' = ewheel s /\ elong s' = elong s
+   /\ checkT s' = checkT s /\ checkE s' = checkE s /\ cfg_aoftime s' = cfg_aoftime s
+   /\ forall k, aget (mgrs s') k = aget (mgrs s) k
+                \/ (aget (mgrs s') k = None /\ exists m, aget (mgrs s) k = Some m /\ m_ref m = 0))
+  /\ Forall (fun ev => ev = [] \/
+                       exists conn req res lc lrc lid cnt rc d,
+                         ev = [EReply conn req res lc lrc lid cnt rc d]
+                         /\ (res = R_STATE_ERROR \/ res = R_UNLOCK_ERROR \/ res = R_TIMEOUT))
+            (snd (run s acts)).
+Proof. exact follower_run. Qed.
+Goal True. idtac "ASSUMPTIONS-OF C10_follower_refuses_every_request". Abort.
+Print Assumptions C10_follower_refuses_every_request.
+Example C10_follower_refuses_every_request_nonvacuous :
+  let s := fst (step (fst (step (init_db 0 0) (AReq 1 (mkCmd true 1 0 7 5 0 0 0 10 0 0 None)))) (ARole false)) in
+  snd (run s [AReq 2 (mkCmd true 2 0 8 5 0 5 0 10 0 0 None); AAdvance 3; AReq 1 (mkCmd false 3 0 7 5 0 0 0 0 0 0 None)])
+  = [[EReply 2 2 R_STATE_ERROR 1 0 8 0 0 None]; []; [EReply 1 3 R_STATE_ERROR 1 0 7 0 0 None]].
+Proof. vm_compute. reflexivity. Qed.
+
+(* observation (not a violation of C10: the follower is more conservative than "waits up to 300 s"): the 300 s window
+   is measured from the last re-arm (expriedTime is overwritten with now + 30), so with a regularly running expiry
+   sweep a follower never ends a persisted hold by itself; witness by evaluation *)
+Theorem C10_follower_wait_exceeds_300_witness :
+  (let '(s', evs) := run rearm_s0 (concat (repeat [AAdvance 100; ASweepE] 10)) in
+   now s' = 1000%Z /\ concat evs = [] /\ m_locked (getm s' 5) = 1
+   /\ exists l, aget (store s') 1 = Some l /\ l_expried l = false /\ l_locked l = 1 /\ l_eT l = 1030%Z)
+  /\ (let '(s', evs) := run rearm_s0 [AAdvance 1000; ASweepE] in
+      concat evs = [ERelease 5 1 1; EReply 1 1 R_EXPRIED 0 0 7 0 0 None] /\ aget (store s') 1 = None).
+Proof. exact follower_wait_exceeds_300_witness. Qed.
+Goal True. idtac "ASSUMPTIONS-OF C10_follower_wait_exceeds_300_witness". Abort.
+Print Assumptions C10_follower_wait_exceeds_300_witness.
